@@ -473,6 +473,23 @@ func c19(x *mon.Ctx) {
 	add("bundle", "right-and-empty", "", 1, -1, false, "-in", qf, "-trusted_roots", rootf+","+emptyf)
 	add("bundle", "intel-sample-embedded-root", "", 0, -1, true, "-in", intelf)
 	add("bundle", "intel-sample-generated-root", "", 2, -1, false, "-in", intelf, "-trusted_roots", rootf)
+	{ // bundles that list certificates, none of which can anchor the Intel sample's chain: end-entity certificates, intermediate
+		// CAs, the TCB signer, several of them. What the operator listed is the root of trust — never the built-in root instead
+		leafOnly := write("leaf-only.pem", w.PKI.Leaf.PEM)
+		interOnly := write("intermediate-only.pem", w.PKI.Inter.PEM)
+		signerOnly := write("tcb-signer-only.pem", w.PKI.TcbSign.PEM)
+		leafAndSigner := write("leaf-and-signer.pem", append(append([]byte{}, w.PKI.Leaf.PEM...), w.PKI.TcbSign.PEM...))
+		for _, v := range []struct{ name, val string }{{"end-entity-only", leafOnly}, {"intermediate-only", interOnly}, {"tcb-signer-only", signerOnly},
+			{"two-end-entities-in-one-file", leafAndSigner}, {"two-end-entity-files", leafOnly + "," + signerOnly}} {
+			add("bundle", "intel-sample/"+v.name, "", 2, -1, false, "-in", intelf, "-trusted_roots", v.val)
+			cfg := &ccpb.Config{RootOfTrust: &ccpb.RootOfTrust{CabundlePaths: strings.Split(v.val, ",")}}
+			b, _ := proto.Marshal(cfg)
+			add("bundle", "intel-sample/config/"+v.name, "", 2, -1, false, "-in", intelf, "-config", write("rot-"+v.name+".bin", b))
+		}
+		cfg := &ccpb.Config{RootOfTrust: &ccpb.RootOfTrust{Cabundles: []string{string(w.PKI.Leaf.PEM)}}}
+		b, _ := proto.Marshal(cfg)
+		add("bundle", "intel-sample/config-inline/end-entity-only", "", 2, -1, false, "-in", intelf, "-config", write("rot-inline-leaf.bin", b))
+	}
 	{ // config-file bundles vs flag bundles
 		cfg := &ccpb.Config{RootOfTrust: &ccpb.RootOfTrust{CabundlePaths: []string{wrongRootf}}}
 		b, _ := proto.Marshal(cfg)
